@@ -19,6 +19,8 @@
      service    messages Req, Resp; service Svc { 2 methods }
      customopt  message OptSub { leaf, names, sub }; 4 file-level extensions (fopt, mopt, mopt2, fldopt)
      srcret     1 more file-level extension (srcopt)
+     extgroup   after Top: message ExtGrp{eg} (a group declared in a file-level `extend`: 1 more file-level
+                extension), message ExtHolder with nested NestedExtGrp{neg} and 1 nested extension
      jsoncollide  Top.foo_bar, Top.fooBar
      mapfeatures  Top.mf1, Top.mf2 + their two entry messages{key, value} (after the group's message)  *)
 EXTENDS FileFeatures
@@ -59,11 +61,13 @@ TopShape(fs) ==
 Shape(s, fs) ==
   Node(<< <<3, Leaves(Len(Deps(fs)))>>,
           <<4, <<TopShape(fs)>>
+               \o (IF "extgroup" \in fs
+                     THEN <<MsgWithFields(1), Node(<< <<3, <<MsgWithFields(1)>> >>, <<6, Leaves(1)>> >>)>> ELSE <<>>)
                \o (IF "service" \in fs THEN <<Leaf0, Leaf0>> ELSE <<>>)
                \o (IF "customopt" \in fs THEN <<MsgWithFields(3)>> ELSE <<>>)>>,
           <<5, IF "enum" \in fs THEN <<EnumWith(3, N("reserved" \in fs), N("reserved" \in fs))>> ELSE <<>> >>,
           <<6, IF "service" \in fs THEN <<Node(<< <<2, Leaves(2)>> >>)>> ELSE <<>> >>,
-          <<7, Leaves(2 * N("extend" \in fs) + 4 * N("customopt" \in fs) + N("srcret" \in fs))>> >>)
+          <<7, Leaves(2 * N("extend" \in fs) + N("extgroup" \in fs) + 4 * N("customopt" \in fs) + N("srcret" \in fs))>> >>)
 
 (* custom options: <<extendee options message, number, type, repeated>> *)
 Exts(fs) ==
